@@ -41,11 +41,739 @@ fn gen_c17(rng: &mut Rng, thorough: bool, out: &mut Cases) {
     }
 }
 
+
+use crate::genmsg::*;
+use dlt_core::dlt::*;
+use dlt_core::filtering::DltFilterConfig;
+
+fn msg_opts_for(rng: &mut Rng, i: usize) -> MsgOpts {
+    let mut o = MsgOpts::default();
+    o.kind = Some(match i % 8 {
+        0 | 1 | 2 => PKind::Verbose,
+        3 => PKind::NonVerbose,
+        4 => PKind::Control,
+        5 => PKind::NetworkTrace,
+        6 => PKind::Verbose,
+        _ => PKind::NonVerbose,
+    });
+    match rng.below(40) {
+        0 => {
+            o.max_blob = 3000;
+            o.max_args = 30
+        }
+        1 => o.max_args = 255,
+        2 => o.target_total = Some(65535),
+        3 => o.target_total = Some(65534),
+        4 => {
+            o.max_args = 0;
+            o.max_blob = 0
+        }
+        _ => {}
+    }
+    o
+}
+
+fn gen_c01(rng: &mut Rng, thorough: bool, out: &mut Cases) {
+    let n = if thorough { 120_000 } else { 6_000 };
+    for i in 0..n {
+        let o = msg_opts_for(rng, i);
+        let m = gen_message(rng, &o);
+        let suffix = gen_suffix(rng);
+        let mut w = W::new();
+        w.msg(&m);
+        w.b(&suffix);
+        out.push(20, w);
+    }
+}
+
+pub fn hostile_inputs(rng: &mut Rng, n: usize, out: &mut Vec<(bool, Vec<u8>)>) {
+    for i in 0..n {
+        let o = msg_opts_for(rng, i);
+        let m = gen_message(rng, &o);
+        let sh = m.storage_header.is_some();
+        let bs = match std::panic::catch_unwind(|| m.as_bytes()) {
+            Ok(b) => b,
+            Err(_) => continue,
+        };
+        let v = match rng.below(12) {
+            0 => bs.clone(),
+            1 => {
+                let k = rng.below(bs.len() as u64 + 1) as usize;
+                bs[..k].to_vec()
+            }
+            2 => { let k = rng.below(80) as usize; rng.bytes(k) }
+            3 => {
+                // length field games
+                let mut v = bs.clone();
+                let o = if sh { 16 } else { 0 };
+                if v.len() >= o + 4 {
+                    let l = *rng.pick(&[0u16, 1, 3, 4, 5, 13, 14, 15, 16, 0xffff, 0x8000, ((v.len() - o) as u16).wrapping_add(1), ((v.len() - o) as u16).wrapping_sub(1)]);
+                    v[o + 2] = (l >> 8) as u8;
+                    v[o + 3] = l as u8;
+                }
+                v
+            }
+            4 => {
+                // NOAR games
+                let mut v = bs.clone();
+                let o = if sh { 16 } else { 0 };
+                if let Some(x) = &m.extended_header {
+                    let _ = x;
+                    let hl = 4 + m.header.ecu_id.is_some() as usize * 4 + m.header.session_id.is_some() as usize * 4 + m.header.timestamp.is_some() as usize * 4;
+                    if v.len() > o + hl + 1 {
+                        v[o + hl + 1] = *rng.pick(&[0u8, 1, 2, 255, v[o + hl + 1].wrapping_add(1), v[o + hl + 1].wrapping_sub(1)]);
+                    }
+                }
+                v
+            }
+            5 => {
+                // message followed by another message / garbage (arguments crossing the declared end)
+                let mut v = mutate(rng, &bs);
+                let extra = gen_suffix(rng);
+                v.extend_from_slice(&extra);
+                v
+            }
+            6 => {
+                // junk in front (with storage header mode this is resync)
+                let k = rng.below(20) as usize;
+                let mut v = rng.bytes(k);
+                v.extend_from_slice(&bs);
+                v
+            }
+            _ => {
+                let mut v = mutate(rng, &bs);
+                if rng.chance(1, 3) {
+                    let e = gen_suffix(rng);
+                    v.extend_from_slice(&e);
+                }
+                v
+            }
+        };
+        let mode = if rng.chance(1, 8) { !sh } else { sh };
+        out.push((mode, v));
+    }
+}
+
+/// hand-made encodings in the dialect real ECUs emit and other non-canonical forms
+pub fn dialect_inputs(rng: &mut Rng, n: usize, out: &mut Vec<(bool, Vec<u8>)>) {
+    for _ in 0..n {
+        let be = rng.bool();
+        let u16b = |v: u16| if be { v.to_be_bytes() } else { v.to_le_bytes() };
+        let u32b = |v: u32| if be { v.to_be_bytes() } else { v.to_le_bytes() };
+        let mut payload = vec![];
+        let nargs = rng.below(4) as usize;
+        for _ in 0..nargs {
+            let mut ti: u32 = match rng.below(8) {
+                0 => 0x10 | *rng.pick(&[0u32, 1, 2, 3, 7, 15]),                 // bool with any TYLE
+                1 => 0x20 | rng.range(0, 6) as u32,                            // sint, TYLE 0..6
+                2 => 0x40 | rng.range(1, 5) as u32,
+                3 => 0x80 | rng.range(2, 5) as u32,
+                4 => 0x200 | rng.below(16) as u32,                             // string with TYLE bits
+                5 => 0x400 | rng.below(16) as u32,
+                6 => 0x1000 | 0x20 | rng.range(2, 5) as u32,                   // fixed point
+                _ => 0x1000 | 0x40 | rng.range(2, 5) as u32,
+            };
+            if rng.chance(1, 4) { ti |= 0x800; }                               // VARI
+            if rng.chance(1, 6) { ti |= 0x2000; }
+            if rng.chance(1, 6) { ti |= 0x4000; }                              // STRU (unused)
+            if rng.chance(1, 6) { ti |= 0x100; }                               // ARAY (unsupported)
+            if rng.chance(1, 4) { ti |= (rng.below(8) as u32) << 15; }
+            if rng.chance(1, 5) { ti |= (rng.next() as u32) << 18; }           // reserved bits
+            payload.extend_from_slice(&u32b(ti));
+            let kindbits = (ti >> 4) & 0x7f;
+            let vari = ti & 0x800 != 0;
+            let strfield = |rng: &mut Rng| -> Vec<u8> {
+                // content with interior NUL / no terminator / invalid UTF-8 / empty
+                let n = rng.below(7) as usize;
+                let mut v: Vec<u8> = (0..n).map(|_| *rng.pick(&[0x41u8, 0x42, 0x00, 0xc3, 0xa9, 0xff, 0x80, 0xe2, 0x82, 0xac, 0x7f])).collect();
+                if rng.bool() { v.push(0); }
+                v
+            };
+            match kindbits {
+                0x20 | 0x40 => {
+                    // string / raw
+                    let body = strfield(rng);
+                    let declared = if rng.chance(1, 6) { (body.len() as u16).wrapping_add(*rng.pick(&[1u16, 2, 0xff00])) } else { body.len() as u16 };
+                    payload.extend_from_slice(&u16b(declared));
+                    if vari {
+                        let name = strfield(rng);
+                        payload.extend_from_slice(&u16b(name.len() as u16));
+                        payload.extend_from_slice(&name);
+                    }
+                    payload.extend_from_slice(&body);
+                }
+                1 => {
+                    if vari {
+                        let name = strfield(rng);
+                        payload.extend_from_slice(&u16b(name.len() as u16));
+                        payload.extend_from_slice(&name);
+                    }
+                    payload.push(rng.next() as u8);
+                }
+                _ => {
+                    if vari {
+                        let name = strfield(rng);
+                        let unit = strfield(rng);
+                        payload.extend_from_slice(&u16b(name.len() as u16));
+                        payload.extend_from_slice(&u16b(unit.len() as u16));
+                        payload.extend_from_slice(&name);
+                        payload.extend_from_slice(&unit);
+                    }
+                    let k = *rng.pick(&[1usize, 2, 4, 8, 12, 16, 20, 24]);
+                    let b = rng.bytes(k);
+                    payload.extend_from_slice(&b);
+                }
+            }
+        }
+        let verbose = rng.chance(3, 4);
+        if !verbose {
+            let k = rng.below(12) as usize;
+            payload = rng.bytes(k);
+        }
+        let mut htyp: u8 = (rng.below(8) as u8) << 5 | if be { 2 } else { 0 };
+        let ueh = rng.chance(5, 6);
+        if ueh { htyp |= 1; }
+        let mut hdr = vec![];
+        for bit in [2u8, 3, 4] {
+            if rng.bool() {
+                htyp |= 1 << bit;
+                let idb: Vec<u8> = match rng.below(4) {
+                    0 => vec![0x45, 0x43, 0x55, 0x00],
+                    1 => vec![0x41, 0x00, 0x42, 0x43],
+                    2 => vec![0xc3, 0xa9, 0xff, 0x41],
+                    _ => rng.bytes(4),
+                };
+                hdr.extend_from_slice(&idb);
+            }
+        }
+        let mut ext = vec![];
+        if ueh {
+            let msin = if rng.chance(1, 3) { rng.next() as u8 } else { (rng.below(8) as u8) << 4 | (rng.below(4) as u8) << 1 } | verbose as u8;
+            ext.push(msin);
+            ext.push(if rng.chance(1, 5) { rng.next() as u8 } else { nargs as u8 });
+            for _ in 0..2 {
+                let idb: Vec<u8> = match rng.below(4) {
+                    0 => vec![0x41, 0x50, 0x50, 0x00],
+                    1 => vec![0x00, 0x00, 0x00, 0x00],
+                    2 => vec![0x41, 0xc3, 0x00, 0x41],
+                    _ => rng.bytes(4),
+                };
+                ext.extend_from_slice(&idb);
+            }
+        }
+        let total = 4 + hdr.len() + ext.len() + payload.len();
+        let declared = if rng.chance(1, 8) { (total as i64 + *rng.pick(&[-1i64, 1, -4, 4, 100])).max(0) as u16 } else { total as u16 };
+        let mut v = vec![];
+        let sh = rng.chance(1, 3);
+        if sh {
+            v.extend_from_slice(&[0x44, 0x4c, 0x54, 0x01]);
+            let t = rng.bytes(8);
+            v.extend_from_slice(&t);
+            v.extend_from_slice(&[0x45, 0x00, 0x41, 0x42]);
+        }
+        v.push(htyp);
+        v.push(rng.next() as u8);
+        v.extend_from_slice(&declared.to_be_bytes());
+        v.extend_from_slice(&hdr);
+        v.extend_from_slice(&ext);
+        v.extend_from_slice(&payload);
+        if rng.chance(1, 4) {
+            let e = gen_suffix(rng);
+            v.extend_from_slice(&e);
+        }
+        out.push((sh, v));
+    }
+}
+
+pub fn gen_filter(rng: &mut Rng, m: Option<&Message>) -> DltFilterConfig {
+    let ids = |rng: &mut Rng, present: Option<&String>| -> Option<Vec<String>> {
+        if rng.chance(2, 5) {
+            None
+        } else {
+            let n = rng.below(4) as usize;
+            let mut v: Vec<String> = (0..n).map(|_| gen_id(rng)).collect();
+            if let Some(p) = present {
+                if rng.bool() {
+                    v.push(p.clone());
+                }
+            }
+            if rng.chance(1, 4) && !v.is_empty() {
+                let d = v[0].clone();
+                v.push(d); // duplicated id
+            }
+            Some(v)
+        }
+    };
+    let (app, ctx, ecu) = match m {
+        Some(m) => (
+            m.extended_header.as_ref().map(|x| x.application_id.clone()),
+            m.extended_header.as_ref().map(|x| x.context_id.clone()),
+            m.header.ecu_id.clone(),
+        ),
+        None => (None, None, None),
+    };
+    let app_ids = ids(rng, app.as_ref());
+    let ecu_ids = ids(rng, ecu.as_ref());
+    let context_ids = ids(rng, ctx.as_ref());
+    let cnt = |rng: &mut Rng, s: &Option<Vec<String>>| -> i64 {
+        let n = s.as_ref().map(|v| v.len() as i64).unwrap_or(0);
+        *rng.pick(&[0i64, n - 1, n, n + 1, n - 2, 100, -1, i64::MAX, i64::MIN])
+    };
+    let app_id_count = cnt(rng, &app_ids);
+    let context_id_count = cnt(rng, &context_ids);
+    DltFilterConfig {
+        min_log_level: match rng.below(4) {
+            0 => None,
+            1 => Some(rng.next() as u8),
+            _ => Some(rng.range(0, 8) as u8),
+        },
+        app_ids,
+        ecu_ids,
+        context_ids,
+        app_id_count,
+        context_id_count,
+    }
+}
+
+fn push_parse(out: &mut Cases, op: u32, sh: bool, f: &Option<DltFilterConfig>, bs: &[u8]) {
+    let mut w = W::new();
+    w.bool(sh);
+    w.opt_filter(f);
+    w.b(bs);
+    out.push(op, w);
+}
+
+fn gen_c03(rng: &mut Rng, thorough: bool, out: &mut Cases) {
+    let n = if thorough { 400_000 } else { 24_000 };
+    let mut ins = vec![];
+    hostile_inputs(rng, n, &mut ins);
+    dialect_inputs(rng, n / 2, &mut ins);
+    for (i, (sh, bs)) in ins.iter().enumerate() {
+        let f = if i % 3 == 0 { Some(gen_filter(rng, None)) } else { None };
+        push_parse(out, 21, *sh, &f, bs);
+        match i % 8 {
+            0 => {
+                let mut w = W::new();
+                w.b(bs);
+                out.push(10, w);
+            }
+            1 => {
+                let mut w = W::new();
+                w.b(bs);
+                out.push(11, w);
+            }
+            2 => {
+                let mut w = W::new();
+                w.b(bs);
+                out.push(12, w);
+            }
+            3 => {
+                let mut w = W::new();
+                w.n(*rng.pick(&[0u128, 1, 4, 5, 65535, bs.len() as u128, bs.len() as u128 + 1]));
+                w.b(bs);
+                out.push(3, w);
+            }
+            _ => {}
+        }
+    }
+    // inputs > 64 KiB: a single string/raw argument with a huge declared size
+    let big = if thorough { 40 } else { 6 };
+    for k in 0..big {
+        let be = k % 2 == 0;
+        let mut v = vec![0x21 | if be { 2 } else { 0 }, 0x00];
+        let total: u16 = *rng.pick(&[20u16, 24, 0xffff, 0x1000]);
+        v.extend_from_slice(&total.to_be_bytes());
+        v.extend_from_slice(&[0x41, 0x01, 0x41, 0, 0, 0, 0x43, 0, 0, 0]);
+        let ti: u32 = if k % 3 == 0 { 0x400 } else { 0x200 };
+        v.extend_from_slice(&if be { ti.to_be_bytes() } else { ti.to_le_bytes() });
+        v.extend_from_slice(&[0xff, 0xff]);
+        let body = vec![0x41u8; 65535 + (k % 4) * 7];
+        v.extend_from_slice(&body);
+        push_parse(out, 21, false, &None, &v);
+    }
+}
+
+fn gen_c04(rng: &mut Rng, thorough: bool, out: &mut Cases) {
+    let n = if thorough { 300_000 } else { 20_000 };
+    let mut ins = vec![];
+    hostile_inputs(rng, n, &mut ins);
+    dialect_inputs(rng, n / 2, &mut ins);
+    for (i, (sh, bs)) in ins.iter().enumerate() {
+        let f = if i % 2 == 0 { Some(gen_filter(rng, None)) } else { None };
+        push_parse(out, 8, *sh, &f, bs);
+        if *sh && i % 4 == 0 {
+            let mut w = W::new();
+            w.b(bs);
+            out.push(10, w);
+        }
+        if i % 16 == 0 {
+            // repeated parsing of a buffer with several messages
+            let mut buf = bs.clone();
+            for _ in 0..rng.below(4) {
+                let m = gen_message(rng, &MsgOpts { storage: Some(*sh), ..MsgOpts::default() });
+                if let Ok(b) = std::panic::catch_unwind(|| m.as_bytes()) {
+                    buf.extend_from_slice(&b);
+                }
+            }
+            push_parse(out, 25, *sh, &f, &buf);
+        }
+    }
+}
+
+fn gen_c05(rng: &mut Rng, thorough: bool, out: &mut Cases) {
+    let n = if thorough { 30_000 } else { 1_500 };
+    for i in 0..n {
+        let mut o = msg_opts_for(rng, i);
+        o.target_total = None;
+        o.max_blob = o.max_blob.min(60);
+        o.max_args = o.max_args.min(8);
+        let m = gen_message(rng, &o);
+        let f = if i % 3 == 0 { Some(gen_filter(rng, Some(&m))) } else { None };
+        let mut w = W::new();
+        w.msg(&m);
+        w.opt_filter(&f);
+        out.push(23, w);
+    }
+}
+
+fn gen_junk(rng: &mut Rng) -> Vec<u8> {
+    // never contains the pattern; often ends in a partial pattern or contains near misses
+    let alphabet = [0x44u8, 0x4c, 0x54, 0x01, 0x00, 0xff, 0x45];
+    let n = rng.below(24) as usize;
+    let mut v: Vec<u8> = (0..n).map(|_| if rng.chance(2, 3) { *rng.pick(&alphabet) } else { rng.next() as u8 }).collect();
+    match rng.below(5) {
+        0 => v.extend_from_slice(&[0x44]),
+        1 => v.extend_from_slice(&[0x44, 0x4c]),
+        2 => v.extend_from_slice(&[0x44, 0x4c, 0x54]),
+        3 => v.extend_from_slice(&[0x44, 0x4c, 0x54, 0x02]),
+        _ => {}
+    }
+    while let Some(i) = crate::oracles::find_pattern(&v) {
+        v[i + 3] = 0x02;
+    }
+    v
+}
+
+fn gen_c06(rng: &mut Rng, thorough: bool, out: &mut Cases) {
+    let n = if thorough { 200_000 } else { 12_000 };
+    // search
+    for _ in 0..n {
+        let alphabet = [0x44u8, 0x4c, 0x54, 0x01, 0x00];
+        let len = rng.below(40) as usize;
+        let mut v: Vec<u8> = (0..len).map(|_| if rng.chance(5, 6) { *rng.pick(&alphabet) } else { rng.next() as u8 }).collect();
+        if rng.chance(1, 3) && len >= 4 {
+            let i = rng.below(len as u64 - 3) as usize;
+            v[i..i + 4].copy_from_slice(&[0x44, 0x4c, 0x54, 0x01]);
+        }
+        let mut w = W::new();
+        w.b(&v);
+        out.push(12, w);
+    }
+    // junk ++ message ++ rest
+    for i in 0..n / 4 {
+        let mut o = msg_opts_for(rng, i);
+        o.storage = Some(true);
+        o.target_total = None;
+        let m = gen_message(rng, &o);
+        let junk = gen_junk(rng);
+        let rest = gen_suffix(rng);
+        let f = if i % 4 == 0 { Some(gen_filter(rng, Some(&m))) } else { None };
+        let mut w = W::new();
+        w.b(&junk);
+        w.msg(&m);
+        w.b(&rest);
+        w.opt_filter(&f);
+        out.push(24, w);
+    }
+    // streams with junk between messages
+    for _ in 0..n / 16 {
+        let k = rng.range(1, 5);
+        let mut w = W::new();
+        w.b(&gen_junk(rng));
+        w.n(k as u128);
+        for _ in 0..k {
+            let m = gen_message(rng, &MsgOpts { storage: Some(true), ..MsgOpts::default() });
+            w.msg(&m);
+            w.b(&gen_junk(rng));
+        }
+        out.push(29, w);
+    }
+}
+
+fn gen_c09(rng: &mut Rng, thorough: bool, out: &mut Cases) {
+    let n = if thorough { 200_000 } else { 12_000 };
+    for i in 0..n {
+        let mut o = msg_opts_for(rng, i);
+        o.target_total = None;
+        let mut m = gen_message(rng, &o);
+        if i % 3 == 0 {
+            if let Some(x) = &mut m.extended_header {
+                // concentrate on log messages incl. invalid levels
+                if !matches!(x.message_type, MessageType::NetworkTrace(_) | MessageType::Control(_)) {
+                    x.message_type = MessageType::Log(gen_log_level(rng));
+                }
+            }
+        }
+        let f = gen_filter(rng, Some(&m));
+        let mut w = W::new();
+        w.msg(&m);
+        w.filter(&f);
+        w.b(&gen_suffix(rng));
+        out.push(26, w);
+        if i % 4 == 0 {
+            let mut w = W::new();
+            w.filter(&f);
+            out.push(27, w);
+        }
+    }
+    for l in 0..=255u8 {
+        let mut f = gen_filter(rng, None);
+        f.min_log_level = Some(l);
+        let mut w = W::new();
+        w.filter(&f);
+        out.push(27, w);
+    }
+}
+
+pub fn gen_signal_type(rng: &mut Rng, allow_fp: bool) -> TypeInfo {
+    let kind = loop {
+        let k = gen_kind(rng);
+        if allow_fp || !matches!(k, TypeInfoKind::SignedFixedPoint(_) | TypeInfoKind::UnsignedFixedPoint(_)) {
+            break k;
+        }
+    };
+    TypeInfo {
+        kind,
+        coding: gen_coding(rng),
+        has_variable_info: rng.chance(1, 8),
+        has_trace_info: rng.chance(1, 8),
+    }
+}
+
+fn gen_c13(rng: &mut Rng, thorough: bool, out: &mut Cases) {
+    let n = if thorough { 150_000 } else { 8_000 };
+    for i in 0..n {
+        let nt = rng.below(6) as usize;
+        let tys: Vec<TypeInfo> = (0..nt).map(|_| gen_signal_type(rng, i % 10 == 0)).collect();
+        let be = rng.bool();
+        // exact payload
+        let mut data = vec![];
+        for t in &tys {
+            match t.kind {
+                TypeInfoKind::Bool => data.push(rng.next() as u8),
+                TypeInfoKind::StringType | TypeInfoKind::Raw => {
+                    let body: Vec<u8> = if t.kind == TypeInfoKind::StringType && rng.chance(4, 5) {
+                        let mut s = gen_text(rng, 12).into_bytes();
+                        if rng.chance(1, 5) {
+                            s.push(0);
+                        }
+                        s
+                    } else {
+                        let k = rng.below(10) as usize;
+                        (0..k).map(|_| *rng.pick(&[0x41u8, 0xc3, 0xa9, 0xff, 0x80, 0x00, 0xe2, 0x82, 0xac])).collect()
+                    };
+                    let l = body.len() as u16;
+                    data.extend_from_slice(&if be { l.to_be_bytes() } else { l.to_le_bytes() });
+                    data.extend_from_slice(&body);
+                }
+                TypeInfoKind::Signed(l) | TypeInfoKind::Unsigned(l) => {
+                    let b = rng.bytes(l as usize / 8);
+                    data.extend_from_slice(&b)
+                }
+                TypeInfoKind::Float(w) => {
+                    let b = rng.bytes(w as usize / 8);
+                    data.extend_from_slice(&b)
+                }
+                TypeInfoKind::SignedFixedPoint(w) | TypeInfoKind::UnsignedFixedPoint(w) => {
+                    let b = rng.bytes(4 + 2 * (w as usize / 8));
+                    data.extend_from_slice(&b)
+                }
+            }
+        }
+        let e = if be { Endianness::Big } else { Endianness::Little };
+        let push = |out: &mut Cases, d: &[u8]| {
+            let mut w = W::new();
+            w.endian(e);
+            w.n(tys.len() as u128);
+            for t in &tys {
+                w.ti(t);
+            }
+            w.b(d);
+            out.push(13, w);
+        };
+        push(out, &data);
+        if i % 4 == 0 {
+            for k in 0..data.len() {
+                push(out, &data[..k]);
+            }
+        } else if !data.is_empty() {
+            let k = rng.below(data.len() as u64) as usize;
+            push(out, &data[..k]);
+        }
+        let mut more = data.clone();
+        let k = 1 + rng.below(5) as usize;
+        let extra = rng.bytes(k);
+        more.extend_from_slice(&extra);
+        push(out, &more);
+    }
+}
+
+fn gen_c15(rng: &mut Rng, thorough: bool, out: &mut Cases) {
+    let n = if thorough { 200_000 } else { 12_000 };
+    for i in 0..n {
+        let a = gen_arg(rng, if i % 50 == 0 { 65000 } else { 60 });
+        let mut w = W::new();
+        w.endian(if rng.bool() { Endianness::Big } else { Endianness::Little });
+        w.arg(&a);
+        out.push(14, w);
+    }
+    for i in 0..n / 2 {
+        let mut o = msg_opts_for(rng, i);
+        if i % 2 == 0 {
+            o.target_total = None;
+        }
+        let m = gen_message(rng, &o);
+        // a configuration consistent with the payload kind
+        let c = MessageConfig {
+            version: m.header.version,
+            counter: m.header.message_counter,
+            endianness: m.header.endianness,
+            ecu_id: m.header.ecu_id.clone(),
+            session_id: m.header.session_id,
+            timestamp: m.header.timestamp,
+            payload: m.payload.clone(),
+            extended_header_info: m.extended_header.as_ref().map(|x| ExtendedHeaderConfig {
+                message_type: x.message_type.clone(),
+                app_id: x.application_id.clone(),
+                context_id: x.context_id.clone(),
+            }),
+        };
+        let mut w = W::new();
+        w.cfg(&c);
+        w.opt_sh(&m.storage_header);
+        if rng.chance(1, 3) {
+            w.n(1);
+            w.ts(&DltTimeStamp { seconds: gen_u(rng, 32) as u32, microseconds: gen_u(rng, 32) as u32 });
+        } else {
+            w.n(0);
+        }
+        out.push(15, w);
+    }
+}
+
+fn gen_c16(rng: &mut Rng, thorough: bool, out: &mut Cases) {
+    let n = if thorough { 300_000 } else { 20_000 };
+    let mut ins = vec![];
+    dialect_inputs(rng, n, &mut ins);
+    hostile_inputs(rng, n / 2, &mut ins);
+    for (sh, bs) in ins {
+        let mut w = W::new();
+        w.bool(sh);
+        w.b(&bs);
+        out.push(28, w);
+    }
+}
+
+fn gen_c19(rng: &mut Rng, thorough: bool, out: &mut Cases) {
+    let alphabet: [u8; 25] = [
+        0x00, 0x41, 0x7F, 0x80, 0x8F, 0x90, 0x9F, 0xA0, 0xBF, 0xC0, 0xC1, 0xC2, 0xDF, 0xE0, 0xE1, 0xEC, 0xED, 0xEE, 0xEF, 0xF0, 0xF1,
+        0xF3, 0xF4, 0xF5, 0xFF,
+    ];
+    // exhaustive over the boundary alphabet for strings of length <= 4 (thorough) / <= 3 plus a sample (quick)
+    let maxlen = if thorough { 4 } else { 3 };
+    let mut cur: Vec<usize> = vec![];
+    loop {
+        let s: Vec<u8> = cur.iter().map(|i| alphabet[*i]).collect();
+        for size in 0..=6u128 {
+            if thorough || cur.len() < 3 || (cur.iter().sum::<usize>() + size as usize) % 4 == 0 {
+                let mut w = W::new();
+                w.n(size);
+                w.b(&s);
+                out.push(3, w);
+            }
+        }
+        // next
+        let mut i = cur.len();
+        loop {
+            if i == 0 {
+                cur = vec![0; cur.len() + 1];
+                break;
+            }
+            i -= 1;
+            if cur[i] + 1 < alphabet.len() {
+                cur[i] += 1;
+                for j in i + 1..cur.len() {
+                    cur[j] = 0;
+                }
+                break;
+            }
+        }
+        if cur.len() > maxlen {
+            break;
+        }
+    }
+    if !thorough {
+        for _ in 0..40_000 {
+            let s: Vec<u8> = (0..4).map(|_| *rng.pick(&alphabet)).collect();
+            let mut w = W::new();
+            w.n(rng.below(7) as u128);
+            w.b(&s);
+            out.push(3, w);
+        }
+    }
+    let n = if thorough { 100_000 } else { 10_000 };
+    for _ in 0..n {
+        let len = match rng.below(6) {
+            0 => rng.below(70_000),
+            _ => rng.below(40),
+        } as usize;
+        let s: Vec<u8> = if rng.bool() {
+            let mut t = gen_text(rng, len).into_bytes();
+            if rng.bool() && !t.is_empty() {
+                let i = rng.below(t.len() as u64) as usize;
+                t[i] = *rng.pick(&[0u8, 0xff, 0x80, 0xc3]);
+            }
+            t
+        } else {
+            (0..len).map(|_| if rng.chance(1, 12) { 0 } else { *rng.pick(&alphabet) }).collect()
+        };
+        let size = match rng.below(6) {
+            0 => s.len() as u128,
+            1 => s.len() as u128 + 1 + rng.below(5) as u128,
+            2 => 65535,
+            3 => 0,
+            _ => rng.below(s.len() as u64 + 2) as u128,
+        };
+        let mut w = W::new();
+        w.n(size);
+        w.b(&s);
+        out.push(3, w);
+    }
+    // the 4-byte ids of messages obey the same rule: parse messages whose ids are arbitrary bytes
+    for _ in 0..n / 10 {
+        let mut ins = vec![];
+        dialect_inputs(rng, 1, &mut ins);
+        for (sh, bs) in ins {
+            push_parse(out, 8, sh, &None, &bs);
+        }
+    }
+}
+
 pub fn generate(prop: &str, seed: u64, thorough: bool) -> Cases {
     let mut rng = Rng::new(seed);
     let mut out = Cases::new();
     match prop {
+        "C01" => gen_c01(&mut rng, thorough, &mut out),
+        "C03" => gen_c03(&mut rng, thorough, &mut out),
+        "C04" => gen_c04(&mut rng, thorough, &mut out),
+        "C05" => gen_c05(&mut rng, thorough, &mut out),
+        "C06" => gen_c06(&mut rng, thorough, &mut out),
+        "C09" => gen_c09(&mut rng, thorough, &mut out),
+        "C13" => gen_c13(&mut rng, thorough, &mut out),
+        "C15" => gen_c15(&mut rng, thorough, &mut out),
+        "C16" => gen_c16(&mut rng, thorough, &mut out),
         "C17" => gen_c17(&mut rng, thorough, &mut out),
+        "C19" => gen_c19(&mut rng, thorough, &mut out),
         _ => panic!("no generator for {}", prop),
     }
     out
